@@ -114,4 +114,29 @@ theorem storeRun_nodup (H : Bytes → Bytes) (ops : List StoreOp) (s : ObjStore)
   | nil => exact h
   | cons op rest ih => exact ih (storeStep H s op) (storeStep_nodup H s op h)
 
+/-! the transactional store: a read through the transaction is a read of the plain store after the same calls -/
+
+theorem txnStep_view (H : Bytes → Bytes) (t : TxnStore) (op : TxnOp) :
+    (txnStep H t op).view H = match op with
+      | .op o => storeStep H (t.view H) o
+      | .commit => t.view H := by
+  cases op with
+  | op o => simp [txnStep, TxnStore.view]
+  | commit => simp [txnStep, TxnStore.view]
+
+theorem txnRun_view (H : Bytes → Bytes) (ops : List TxnOp) (t : TxnStore) :
+    (txnRun H t ops).view H = storeRun H (t.view H) (TxnOp.storeOps ops) := by
+  induction ops generalizing t with
+  | nil => rfl
+  | cons op rest ih =>
+    have h := ih (txnStep H t op)
+    rw [txnStep_view] at h
+    cases op with
+    | op o => simpa [txnRun, storeRun, TxnOp.storeOps] using h
+    | commit => simpa [txnRun, storeRun, TxnOp.storeOps] using h
+
+theorem txnStep_op_base (H : Bytes → Bytes) (t : TxnStore) (o : StoreOp) : (txnStep H t (.op o)).base = t.base := rfl
+
+theorem txnStep_commit_base (H : Bytes → Bytes) (t : TxnStore) : (txnStep H t .commit).base = t.view H := rfl
+
 end Wrgl
